@@ -33,6 +33,20 @@ def run(ctx, R, tier):
     R.rule("C13-R5", "SocketConnection.close: session instances dropped, every tracked resource closed under its own suppression, set cleared afterwards, socket errors suppressed, early return only for keep_open", floor=5)
 
     R.rule("C13-R6", "tracked resources are per connection: the set is created fresh in SocketConnection.__init__", floor=1)
+    R.rule("C13-R7", "a resource is filed under the connection that is being served: current_context.client is set to this request's connection before any user code of the "
+                     "request (constructors of session/percall instances included) can call track_resource (shared with C12-R2)", floor=0)
+    # ---------------------------------------------------------------- R7 (shared with C12-R2)
+    from ..report import Rules as _Rules
+    from . import c12 as _c12
+    R12 = _Rules("C12")
+    _c12.run(ctx, R12, tier)
+    shared = [o for o in R12.obs if o.key == "C12-R2|handleRequest|client"]
+    if not shared:
+        R.note("the C12-R2 instance for the context field `client` was not produced on this tree (C12 reports why); nothing shared")
+    for o in shared:
+        R.add("C13-R7", "handleRequest|client-set-before-user-code", "current_context.client is this request's connection before _getInstance / dispatch can run user code "
+              "(track_resource files a resource under current_context.client: set too late, the resource is closed with another connection or never)", o.ok, o.loc, o.detail)
+
     # ---------------------------------------------------------------- R1
     f = ctx.fn("Pyro5.svr_threads.ClientConnectionJob.__call__")
     cfg = ctx.cfg(f)
